@@ -392,6 +392,28 @@ def scene_vla(c):
     c.labels.add("vla")
 
 
+def scene_alloca(c):
+    """Blocks from alloca live until the function returns: a call site executed several times (loop, backward goto) hands
+    out a fresh block each time, whatever the form of the size expression."""
+    d = c.draw
+    f = c.uid("alc")
+    sizes = ["sizeof *p", "sizeof(struct %s_nd)" % f, "16UL", "16", "(unsigned long)16", "n * 0 + 16", "sizeof(struct %s_nd) + 0" % f, "%s_SZ" % f, "sizeof(long[2])", "32ul", "n + 16"]
+    s1, s2 = d(st.sampled_from(sizes)), d(st.sampled_from([x for x in sizes if "*p" not in x]))
+    body = ["struct %s_nd *head = 0;" % f,
+            "for (int i = 0; i < n; i++) {", "\tstruct %s_nd *p = __builtin_alloca(%s);" % (f, s1), "\tp->val = i * 7 + 1; p->next = head; head = p;"]
+    if d(st.booleans()):
+        body.append("\t{ int v[i + 1]; v[i] = i; chk_i64(v[i]); }")
+    body += ["}", "long s = 0; int cnt = 0;",
+             "for (struct %s_nd *p = head; p && cnt < 100; p = p->next, cnt++) s = s * 3 + p->val;" % f, "chk_i64(s); chk_i64(cnt);",
+             "int k = 0; char *ptrs[4];", "again:", "ptrs[k] = __builtin_alloca(%s); ptrs[k][0] = (char)(k + 1); ptrs[k][15] = (char)(k + 2);" % s2,
+             "if (++k < 4) goto again;",
+             "chk_i64(ptrs[0][0] + ptrs[1][0] * 2 + ptrs[2][0] * 4 + ptrs[3][0] * 8 + ptrs[0][15] * 16); chk_i64(ptrs[0] != ptrs[1]); chk_i64(ptrs[2] != ptrs[3]);",
+             "chk_u64((unsigned long)ptrs[1] % 16u);"]
+    c.funcs.append("struct %s_nd { struct %s_nd *next; long val; }; enum { %s_SZ = 16 };\nstatic void %s(int n) {\n\t%s\n}" % (f, f, f, f, "\n\t".join(body)))
+    c.calls.append("%s(%d);" % (f, d(st.integers(1, 6))))
+    c.labels.add("alloca-in-loop")
+
+
 def scene_pointers(c):
     d = c.draw
     f = c.uid("ptr")
@@ -473,7 +495,7 @@ def scene_float(c):
 
 
 SCENES = [scene_struct_copy, scene_struct_copy, scene_init, scene_init, scene_control, scene_calls, scene_calls,
-          scene_vla, scene_pointers, scene_statics, scene_arith_loop, scene_float]
+          scene_vla, scene_pointers, scene_statics, scene_arith_loop, scene_float, scene_alloca]
 
 
 @st.composite
